@@ -156,8 +156,14 @@ func (v *c15Val) fresh(now time.Time) (mustHit, mustMiss bool) {
 	if v.delta != nil && v.deltaNext.Before(next) {
 		next = v.deltaNext
 	}
-	return now.Before(next), now.After(next)
+	// must miss: strictly after the earlier next-update ("afterwards ... the result is a cache miss"). Must hit:
+	// only while the entry is comfortably fresh - the statement says when a bundle may be returned, not that an
+	// implementation has to serve it up to the last instant (one that treats an entry as stale a little early
+	// is within the statement), so the last ten minutes before next-update, and the instant itself, allow both.
+	return now.Add(c15FreshMargin).Before(next), now.After(next)
 }
+
+const c15FreshMargin = 10 * time.Minute
 
 type c15Entry struct {
 	cands   []*c15Val // possible current contents (nil element = no entry)
